@@ -37,8 +37,12 @@ type wkind struct {
 	noWrite bool
 }
 
+// forceCursorID: -1 = drawn; 0 = the cursor id is 0 (the name identifies the cursor - also the empty name);
+// 1 = a cursor id other than 0
+var forceCursorID = -1
+
 func curFix(rng *rand.Rand, f map[string]interface{}) {
-	if rng.Intn(2) == 0 {
+	if forceCursorID == 0 || (forceCursorID < 0 && rng.Intn(2) == 0) {
 		f["cursorid"] = 0
 	} else if f["cursorid"].(int) == 0 {
 		f["cursorid"] = 1 + rng.Intn(1000)
@@ -1277,6 +1281,16 @@ func wireMain(args []string) error {
 					}
 					for i := 0; i < reps; i++ {
 						r.genericWith(k, true, false, fd.name, n)
+					}
+					if fd.name == "name" && len(k.fields) > 0 && k.fields[0].name == "cursorid" {
+						// the cursor kinds: the name at this length with cursor id 0, and (length 0) with another id
+						forceCursorID = 0
+						r.genericWith(k, true, false, fd.name, n)
+						if n == 0 {
+							forceCursorID = 1
+							r.genericWith(k, true, false, fd.name, n)
+						}
+						forceCursorID = -1
 					}
 				}
 				for e := range edgeTexts { // NUL / blank / line end at the ends of the value
